@@ -56,6 +56,10 @@ class Eval:
 
     def atom(self, a):
         kind = a[0]
+        if kind in ("f", "call", "cp"):
+            k0 = repr(a)
+            if k0 in self.val:            # a caller fixed the value of this sub-expression
+                return self.val[k0]
         if kind == "f":
             name, args = a[1], a[2]
             if name in ("min", "max") and len(args) == 2:
@@ -68,6 +72,14 @@ class Eval:
                 if y <= 0 or x < 0:
                     raise ErrPath()
                 return -(-x // y)
+            if name in ("Lt", "Le", "Gt", "Ge", "Eq", "Ne") and len(args) == 2:
+                x, y = self.key(args[0]), self.key(args[1])
+                return int({"Lt": x < y, "Le": x <= y, "Gt": x > y, "Ge": x >= y, "Eq": x == y, "Ne": x != y}[name])
+            if name == "BitAnd" and len(args) == 2:
+                x, y = self.key(args[0]), self.key(args[1])
+                if x < 0 or y < 0:
+                    raise ErrPath()
+                return x & y
             if name in ("Div", "Rem") and len(args) == 2:
                 x, y = self.key(args[0]), self.key(args[1])
                 if y <= 0 or x < 0:
